@@ -44,7 +44,8 @@
 (*                                                                         *)
 (* The reader contract is a machine with one action per body block: it     *)
 (* emits the item the block must be presented as.  An item is              *)
-(*   [k, lvl, mdlvl, ids, gaps, rows, cols, cells]                         *)
+(*   [k, lvl, alt, mdlvl, ids, gaps, rows, cols, cells]                    *)
+(* (alt # 0: a second acceptable heading level, -1 = any level)            *)
 (* (lvl = the authored heading level / list depth as the document model    *)
 (* must report it, mdlvl = the number of # Markdown writes: at most six)    *)
 (* ids = the tokens in source order, gaps[j] = "ws" iff a tab / break /    *)
@@ -103,6 +104,11 @@ SheetOK(f, sh) ==
           /\ sh[i].decl \in (IF f = "docx" THEN Decls \ {"bare"} ELSE {"none", "builtin", "bare", "outline"})
           /\ sh[i].lvl \in 1..9
           /\ sh[i].based \in {-2, -1, 0} \cup (1..Len(sh))
+          \* where the style is declared: "doc" = the named styles of styles.xml (office:styles /
+          \* w:styles), "auto" = ODT automatic styles of content.xml; the sheet order is the
+          \* declaration order inside each place.  The built-in heading styles are named styles.
+          /\ sh[i].loc \in (IF f = "docx" THEN {"doc"} ELSE {"doc", "auto"})
+          /\ sh[i].decl \in {"builtin", "bare"} => sh[i].loc = "doc"
     \* style ids and names are unique: a built-in heading identity occurs at most once
     /\ \A i, j \in 1..Len(sh) : (i # j /\ sh[i].decl \in {"builtin", "nameL", "nameU", "bare"}
                                       /\ sh[j].decl \in {"builtin", "nameL", "nameU", "bare"}) => sh[i].lvl # sh[j].lvl
@@ -211,9 +217,9 @@ IsDoc(d) ==
     /\ d.sheet # <<>> => \A i \in 1..Len(d.body) : d.body[i].k = "H" => d.body[i].how = "outline"
     /\ \A i \in 1..Len(d.body) : d.body[i].k = "S" =>
           /\ d.body[i].sty \in 1..Len(d.sheet)
-          \* ODT: the heading is a text:h whose text:outline-level is lvl; the styles of the
-          \* sheet that declare a level declare the same one (no conflicting documents)
-          /\ d.fmt = "odt" => \A j \in 1..Len(d.sheet) : d.sheet[j].lvl = d.body[i].lvl
+          \* ODT: the heading is a text:h whose text:outline-level is lvl - or, how = "noattr",
+          \* a text:h without an outline level of its own
+          /\ d.body[i].how \in (IF d.fmt = "odt" THEN {"", "noattr"} ELSE {""})
 
 Bases(body) == [i \in 1..Len(body) |-> Sum([j \in 1..(i - 1) |-> NTok(body[j])])]
 
@@ -230,23 +236,31 @@ Item(d, i) ==
     IN IF b.k = "TBL"
        THEN LET an  == Anchors(b.tb)
                 off == [q \in 1..Len(an) |-> Sum([j \in 1..(q - 1) |-> NCell(b.tb, an[j])])]
-            IN [k |-> "TBL", lvl |-> 0, mdlvl |-> 0, ids |-> ids, gaps |-> <<>>,
+            IN [k |-> "TBL", lvl |-> 0, alt |-> 0, mdlvl |-> 0, ids |-> ids, gaps |-> <<>>,
                 rows |-> b.tb.rows, cols |-> b.tb.cols,
                 cells |-> [q \in 1..Len(an) |->
                     [r |-> an[q][1], c |-> an[q][2],
                      rs |-> IF InS(an[q], b.tb.vm) THEN 2 ELSE 1,
                      cs |-> IF InS(an[q], b.tb.hm) THEN 2 ELSE 1,
                      ids |-> [j \in 1..NCell(b.tb, an[q]) |-> base + off[q] + j]]]]
+       ELSE IF b.k = "S" /\ b.how = "noattr"
+       THEN \* ODT text:h without text:outline-level: ODF 1.2 says such a heading is at level 1;
+            \* readers commonly take the default-outline-level of the heading's own style.  Both
+            \* are accepted (alt).  If the own style declares none, any level is (alt = -1).
+            LET own == d.sheet[b.sty].decl \in {"builtin", "outline"} IN
+            [k |-> "H", lvl |-> IF own THEN d.sheet[b.sty].lvl ELSE 1, alt |-> IF own THEN 1 ELSE -1,
+             mdlvl |-> IF own THEN MdLvl(d.sheet[b.sty].lvl) ELSE 1, ids |-> ids,
+             gaps |-> GapsOf(FlatCh(b.ch)), rows |-> 0, cols |-> 0, cells |-> <<>>]
        ELSE IF b.k = "S"
        THEN LET h == IF d.fmt = "docx" THEN HeadOf(d.sheet, b.sty)
                      \* ODT: text:outline-level of the text:h decides (ODF 1.2 5.1.2); an
                      \* invalid sheet (cycle, undefined parent) leaves the result open
                      ELSE IF HeadOf(d.sheet, b.sty) = -1 THEN -1 ELSE b.lvl
             IN [k |-> IF h = -1 THEN "PH" ELSE IF h = 0 THEN "P" ELSE "H",
-                lvl |-> IF h < 1 THEN 0 ELSE h, mdlvl |-> IF h < 1 THEN 0 ELSE MdLvl(h), ids |-> ids,
+                lvl |-> IF h < 1 THEN 0 ELSE h, alt |-> 0, mdlvl |-> IF h < 1 THEN 0 ELSE MdLvl(h), ids |-> ids,
                 gaps |-> GapsOf(FlatCh(b.ch)), rows |-> 0, cols |-> 0, cells |-> <<>>]
        ELSE [k |-> b.k, lvl |-> IF b.k = "P" THEN 0 ELSE IF b.k = "LI" THEN b.lvl - MinLI(d.body) ELSE b.lvl,
-             mdlvl |-> IF b.k = "H" THEN MdLvl(b.lvl) ELSE 0, ids |-> ids,
+             alt |-> 0, mdlvl |-> IF b.k = "H" THEN MdLvl(b.lvl) ELSE 0, ids |-> ids,
              gaps |-> GapsOf(FlatCh(b.ch)), rows |-> 0, cols |-> 0, cells |-> <<>>]
 
 \* ------------------------------------------------------------- behaviour
